@@ -7,7 +7,7 @@
 SECS="${1:-600}"; OUT="${2:-/var/tmp/corpus-grown}"
 ROOT="$(cd "$(dirname "$0")/.." && pwd)"
 export CARGO_NET_OFFLINE=true VERIF_ROOT="$ROOT"
-cd "$ROOT/engine" && cargo +nightly fuzz build -O >/dev/null 2>&1 || { echo "fuzz build failed"; exit 2; }
+cd "$ROOT/engine" && cargo +nightly fuzz build -O -s none >/dev/null 2>&1 || { echo "fuzz build failed"; exit 2; }
 BIN="$ROOT/engine/fuzz/target/x86_64-unknown-linux-gnu/release"
 W=$(mktemp -d /var/tmp/grow.XXXXXX)
 run() { # target prop workers
